@@ -167,10 +167,10 @@ def digitsVal (acc : Nat) (prevDigit : Bool) : Str → Option Nat
       | some d => digitsVal (acc * 10 + d) true cs
       | none => none
 
-/-- ASCII characters `str.strip()` removes -/
+/-- ASCII characters `int()` skips around the numeral (tab, LF, VT, FF, CR, space; not FS..US) -/
 def pySpace (c : Char) : Bool :=
   let n := c.toNat
-  (9 ≤ n && n ≤ 13) || (28 ≤ n && n ≤ 32)
+  (9 ≤ n && n ≤ 13) || n == 32
 
 def strip (s : Str) : Str := ((s.dropWhile pySpace).reverse.dropWhile pySpace).reverse
 
@@ -223,21 +223,34 @@ def splitScheme (url : Str) : Str × Str :=
       (pre.map Char.toLower, (dropUntil (· == ':') url).drop 1)
     else ([], url)
 
+/-- `url.lstrip(C0 ∪ space)` then removal of tab/CR/LF anywhere -/
+def cleanUrl (url : Str) : Str := (url.dropWhile c0OrSpace).filter (fun c => !unsafeChar c)
+
+/-- `_splitnetloc(url, 2)` when `url[:2] == '//'`: (netloc, rest) -/
+def splitNetloc (url : Str) : Str × Str :=
+  if url.take 2 == ['/', '/'] then (takeUntil netlocDelim (url.drop 2), dropUntil netlocDelim (url.drop 2))
+  else ([], url)
+
+/-- `netloc.partition('[')[2].partition(']')[0]`: the text `_check_bracketed_host` is asked about -/
+def bracketed (netloc : Str) : Str := (partition ']' (partition '[' netloc).2.2).1
+
 def urlsplit (v6ok : Str → Bool) (url0 : Str) : Except Err Split :=
-  let url := (url0.dropWhile c0OrSpace).filter (fun c => !unsafeChar c)
-  let (scheme, url) := splitScheme url
-  let hasNetloc := url.take 2 == ['/', '/']
-  let netloc := if hasNetloc then takeUntil netlocDelim (url.drop 2) else []
-  let url := if hasNetloc then dropUntil netlocDelim (url.drop 2) else url
+  let (scheme, url) := splitScheme (cleanUrl url0)
+  let (netloc, url) := splitNetloc url
   let lb := netloc.contains '['
   let rb := netloc.contains ']'
   if lb != rb then .error .valueError
-  else if lb && !v6ok (partition ']' (partition '[' netloc).2.2).1 then .error .valueError
+  else if lb && !v6ok (bracketed netloc) then .error .valueError
   else
     let (url, _, fragment) := partition '#' url
     let (url, _, query) := partition '?' url
     if !isAscii netloc then .error .outOfModel
     else .ok ⟨scheme, netloc, url, query, fragment⟩
+
+/-- the bracketed host text of a URI, if `urlsplit` consults the bracket check at all -/
+def bracketText (uri : Str) : Option Str :=
+  let netloc := (splitNetloc (splitScheme (cleanUrl (patchUri uri))).2).1
+  if netloc.contains '[' && netloc.contains ']' then some (bracketed netloc) else none
 
 /-- `urllib.parse.uses_params` -/
 def usesParams : List Str :=
